@@ -27,6 +27,15 @@
 (* operation carrying its own "hook" label, labels with empty values,      *)
 (* "expire" with a name.                                                   *)
 (*                                                                         *)
+(* `cut` # "" marks an operation of the metrics FILE that is cut off in    *)
+(* the middle (the file ends inside the JSON document: hook killed, disk   *)
+(* full, a missing closing brace): "string" inside a string, "colon" right *)
+(* after a colon, "labels" inside the labels object.  It can only be the   *)
+(* LAST operation of a batch, it is an invalid operation whatever its      *)
+(* fields say, and the batch is refused as a whole like any other invalid  *)
+(* batch.  (It exists in the file syntax only; the harness writes such a   *)
+(* batch as a file in every rendering.)                                    *)
+(*                                                                         *)
 (* AsIs selects the behaviour of the code at the pinned commit for the     *)
 (* defects found (MC_asis_*.cfg show TLC finding each of them):            *)
 (*   "F18" a grouped add written with the `add` shortcut is applied twice  *)
@@ -78,8 +87,10 @@ LS3 == {{}, {<<"a", "x">>}, {<<"a", "y">>}}
 LS3s == {{}, {<<"a", "x">>}, {<<"a", "x">>, <<"b", "y">>}}
 LS4 == {{}, {<<"a", "x">>}, {<<"a", "y">>}, {<<"a", "x">>, <<"b", "y">>}}
 InvFew == {"bogus_u", "novalue_setg", "observe_g"}
+InvCut == {"cut_str", "cut_colon", "cut_labels"}
+InvFewCut == InvFew \cup InvCut
 InvAll == {"noaction_u", "noaction_g", "bogus_u", "bogus_g", "expire_u", "observe_g", "novalue_add", "novalue_setg",
-           "novalue_obs", "nobuckets", "noname_u", "noname_g", "both_u", "both_g"}
+           "novalue_obs", "nobuckets", "noname_u", "noname_g", "both_u", "both_g"} \cup InvCut
 
 NoGroup == ""
 NoValue == 0 - 1
@@ -87,15 +98,16 @@ NoShape == {"-"}
 Frac(v) == v % 2 = 1
 
 (* ---------- operations ---------- *)
-UOps(a)   == [group : {NoGroup}, name : Names, action : {a}, labels : LabelSets, value : Values, buckets : {a = "observe"}]
-GOps(a)   == [group : Groups, name : Names, action : {a}, labels : LabelSets, value : Values, buckets : {FALSE}]
-ExpireOps == [group : Groups, name : {""}, action : {"expire"}, labels : {{}}, value : {NoValue}, buckets : {FALSE}]
+UOps(a)   == [group : {NoGroup}, name : Names, action : {a}, labels : LabelSets, value : Values, buckets : {a = "observe"}, cut : {""}]
+GOps(a)   == [group : Groups, name : Names, action : {a}, labels : LabelSets, value : Values, buckets : {FALSE}, cut : {""}]
+ExpireOps == [group : Groups, name : {""}, action : {"expire"}, labels : {{}}, value : {NoValue}, buckets : {FALSE}, cut : {""}]
 ValidOps  == UOps("add") \cup UOps("set") \cup UOps("observe") \cup GOps("add") \cup GOps("set") \cup ExpireOps
 
 N1 == CHOOSE n \in Names : TRUE
 G1 == CHOOSE g \in Groups : TRUE
 V1 == CHOOSE v \in Values : TRUE
-Base(g, a) == [group |-> g, name |-> N1, action |-> a, labels |-> {}, value |-> V1, buckets |-> (a = "observe")]
+L1 == CHOOSE ls \in LabelSets : ls # {}
+Base(g, a) == [group |-> g, name |-> N1, action |-> a, labels |-> {}, value |-> V1, buckets |-> (a = "observe"), cut |-> ""]
 \* one representative per rule of the file format; the key is only a selector for the cfg
 InvalidTable ==
   [ noaction_u   |-> Base(NoGroup, ""),
@@ -111,13 +123,18 @@ InvalidTable ==
     noname_u     |-> [Base(NoGroup, "set") EXCEPT !.name = ""],
     noname_g     |-> [Base(G1, "add") EXCEPT !.name = ""],
     both_u       |-> Base(NoGroup, "both"),      \* `set` and `add` shortcuts given together
-    both_g       |-> Base(G1, "both") ]
+    both_g       |-> Base(G1, "both"),
+    \* the last operation of the file is cut off in the middle; what is left of it would be a valid operation
+    cut_str      |-> [Base(G1, "set") EXCEPT !.cut = "string"],
+    cut_colon    |-> [Base(NoGroup, "add") EXCEPT !.cut = "colon"],
+    cut_labels   |-> [Base(G1, "add") EXCEPT !.labels = L1, !.cut = "labels"] ]
 InvalidOps == {InvalidTable[k] : k \in InvalidSel}
 Ops == ValidOps \cup InvalidOps
 
 \* The rules of the file format (docs: name/action/value; observe needs buckets and is not supported in groups;
 \* expire only with a group).
 Valid(op) ==
+  /\ op.cut = ""
   /\ op.action \in (IF op.group = NoGroup THEN {"add", "set", "observe"} ELSE {"add", "set", "expire"})
   /\ (op.action # "expire" => op.name # "")
   /\ (op.action \in {"add", "set", "observe"} => op.value # NoValue)
@@ -144,6 +161,7 @@ EffOwner(ops, n) ==
 Admissible(ops, k) ==
   LET M == {i \in DOMAIN ops : IsMetric(ops[i])} IN
   /\ Cardinality({i \in DOMAIN ops : ~Valid(ops[i])}) <= 1
+  /\ \A i \in DOMAIN ops : ops[i].cut # "" => \A j \in DOMAIN ops : j <= i    \* a file can only be cut at its end
   /\ \A i \in M :
        LET o == ops[i]  key == Key(o, k) IN
        \* one kind per name
